@@ -59,7 +59,11 @@ impl Program {
         // collect all instances of type templates from the symbol table
         let mut data_types = Vec::new();
         let mut codata_types = Vec::new();
-        for (name, (pol, type_args, xtors)) in symbol_table.types {
+        // the symbol table is a hash map, so we sort the instances by name to make the order of
+        // the type declarations (and thus all printed intermediate representations) deterministic
+        let mut types: Vec<_> = symbol_table.types.into_iter().collect();
+        types.sort_by(|(name1, _), (name2, _)| name1.cmp(name2));
+        for (name, (pol, type_args, xtors)) in types {
             match pol {
                 Polarity::Data => {
                     let ctors = xtors
